@@ -49,6 +49,13 @@ postfix = st.one_of(
 SPECIALS = np.array([np.nan, np.inf, -np.inf, -0.0, 0.0, 5e-324, -5e-324, 1.0, -1.0, 1e308, 2.2250738585072014e-308])
 
 
+FAULT_KINDS = ["unequal_counts", "n_mismatch", "later_snapshot_size", "snapshot_size", "snapshot_size", "load_non_npz", "from_file_non_npz", "save_non_npz"]
+FAULT_EXTRA = {
+    "snap": st.integers(0, 7),
+    "which": st.sampled_from(["f", "o", "both", "o_flat"]),
+    "size": st.sampled_from(["one", "one", "minus", "plus", "double", "zero"]),
+}
+
 def mineral_data():
     return st.fixed_dictionaries(
         {
@@ -114,7 +121,8 @@ op = st.one_of(
     st.fixed_dictionaries(
         {
             "op": st.just("fault"),
-            "kind": st.sampled_from(["unequal_counts", "n_mismatch", "later_snapshot_size", "load_non_npz", "from_file_non_npz", "save_non_npz"]),
+            "kind": st.sampled_from(FAULT_KINDS),
+            **FAULT_EXTRA,
             "file": st.integers(0, 1),
             "pf": st.one_of(st.none(), postfix),
             "m": mineral_data(),
@@ -228,6 +236,23 @@ class ArchiveRunner:
                     m.fractions[-1] = np.append(m.fractions[-1], 0.5)
                     m.orientations[-1] = np.concatenate([m.orientations[-1], np.eye(3)[None]])
                     m.save(files[fi], postfix=pf)
+                elif kind == "snapshot_size":
+                    # one snapshot (any index) whose arrays do not have n_grains entries: sizes that
+                    # numpy would broadcast (1), off-by-one, double, empty; fractions, orientations
+                    # or both; orientations that lost their grain axis
+                    n = md["n"]
+                    k = {"one": 1, "minus": n - 1, "plus": n + 1, "double": 2 * n, "zero": 0}[o.get("size", "one")]
+                    if k == n or k < 0:
+                        return
+                    i = o.get("snap", 0) % len(m.fractions)
+                    which = o.get("which", "both")
+                    if which in ("f", "both"):
+                        m.fractions[i] = np.full(k, 1.0 / max(k, 1))
+                    if which in ("o", "both"):
+                        m.orientations[i] = np.stack([np.eye(3)] * k) if k else np.empty((0, 3, 3))
+                    if which == "o_flat":
+                        m.orientations[i] = np.eye(3)
+                    m.save(files[fi], postfix=pf)
                 elif kind == "load_non_npz":
                     bad = os.path.join(d, "c.dat")
                     shutil.copyfile(files[fi], bad) if os.path.exists(files[fi]) else open(bad, "wb").close()
@@ -294,7 +319,8 @@ _load_op = st.fixed_dictionaries({"op": st.just("load"), "pick": st.integers(0, 
 _fault_op = st.fixed_dictionaries(
     {
         "op": st.just("fault"),
-        "kind": st.sampled_from(["unequal_counts", "n_mismatch", "later_snapshot_size", "load_non_npz", "from_file_non_npz", "save_non_npz"]),
+        "kind": st.sampled_from(FAULT_KINDS),
+            **FAULT_EXTRA,
         "file": st.integers(0, 1),
         "pf": st.one_of(st.none(), postfix),
         "m": mineral_data(),
@@ -363,13 +389,16 @@ def make_machine(hooks):
             self._apply({"op": "load", "pick": pick, "into_n": into_n, "how": how})
 
         @rule(
-            kind=st.sampled_from(["unequal_counts", "n_mismatch", "later_snapshot_size", "load_non_npz", "from_file_non_npz", "save_non_npz"]),
+            kind=st.sampled_from(FAULT_KINDS),
+            snap=FAULT_EXTRA["snap"],
+            which=FAULT_EXTRA["which"],
+            size=FAULT_EXTRA["size"],
             file=st.integers(0, 1),
             pf=st.one_of(st.none(), postfix),
             m=mineral_data(),
         )
-        def fault(self, kind, file, pf, m):
-            self._apply({"op": "fault", "kind": kind, "file": file, "pf": pf, "m": m})
+        def fault(self, kind, file, pf, m, snap, which, size):
+            self._apply({"op": "fault", "kind": kind, "file": file, "pf": pf, "m": m, "snap": snap, "which": which, "size": size})
 
         @invariant()
         def everything_recoverable(self):
